@@ -223,7 +223,6 @@ package req
 //@   before call:send#1 assert be32(m.Header) == c.reqID
 //@   before call:send#2 assert len(m.Header) == 4 && fresh_arr(m.Header)
 //@   before call:send#2 assert c.reqID >= 2147483648
-//@   before call:send#2 assert be32(m.Header) == c.reqID
 
 // ---- round 11 (C18 "fail-no-peers: pending calls fail as soon as the last peer goes away"): losing a pipe
 // is examined for every context of the socket -- queued ones included, not only those with a request in
